@@ -144,14 +144,16 @@ func (x *vw3) applyAnon(n *vwNode, env *mc.Env) (obs string, err error) {
 	cur := n.hist[len(n.hist)-1]
 	ni := int(n.id) - 1
 	hadPending := x.pendingKey(n) != ""
-	inRetained := false
-	if st := x.chanState(n); st != nil {
-		_, inRetained = st.retained[cmdID(k)]
-	}
 	x.proposed[k] |= 1
 	receipt, cerr := n.log.Commit(context.Background(), Proposal{Key: x.key, Expected: cur, CommandID: cmdID(k), Records: anonRecords(cur.ChannelEpoch), ServerAllocatedMessageIDs: true})
 	after := x.snapshot()
 	obs = "commita:" + errName(cerr)
+	if cerr == nil {
+		obs += fmt.Sprintf(":[%d,%d]", receipt.First, receipt.Last)
+	}
+	if err := x.anonStoredAgain(after); err != nil {
+		return obs, err
+	}
 	ai, acked := x.ackOf[k]
 	if cerr != nil {
 		if acked && x.acks[ai].receipt.Authority == cur && n.writable && !n.fenced && !hadPending && x.noFaultsNow() {
@@ -159,17 +161,9 @@ func (x *vw3) applyAnon(n *vwNode, env *mc.Env) (obs string, err error) {
 		}
 		return obs, x.transitionChecks("commita", before)
 	}
-	obs += fmt.Sprintf(":[%d,%d]", receipt.First, receipt.Last)
 	if acked {
 		ack := x.acks[ai]
 		if receipt.First != ack.receipt.First || receipt.Last != ack.receipt.Last {
-			oldCopy, _ := after[ni].at(ack.receipt.First)
-			newCopy, _ := after[ni].at(receipt.First)
-			if !inRetained && !hadPending && receipt.First == before[ni].leo+1 && oldCopy.CommandID == cmdID(k) && newCopy.CommandID == cmdID(k) {
-				return obs, mc.Violatef("C03:cold-retry-of-keyless-server-allocated-command-appended-again",
-					"the anonymous command (one record without an idempotency key, ServerAllocatedMessageIDs) was acknowledged as [%d,%d] under %s; its exact retry at node %d under %s, issued when the command was no longer in the retained-command cache, was appended AGAIN at the log end and acknowledged as [%d,%d] (node %d now stores the command at %d and at %d)",
-					ack.receipt.First, ack.receipt.Last, authStr(ack.receipt.Authority), n.id, authStr(cur), receipt.First, receipt.Last, n.id, ack.receipt.First, receipt.First)
-			}
 			return obs, mc.Violatef("C03:retry-returned-different-range", "the anonymous command (no idempotency key, ServerAllocatedMessageIDs) was acknowledged as [%d,%d] under %s; its exact retry at node %d under %s returned [%d,%d]", ack.receipt.First, ack.receipt.Last, authStr(ack.receipt.Authority), n.id, authStr(cur), receipt.First, receipt.Last)
 		}
 		if !sameLogs(before, after) {
@@ -266,6 +260,38 @@ func (x *vw3) Apply(event string, env *mc.Env) (string, error) {
 	return obs, mc.Violatef("C03:exact-retry-refused-by-proposal-kept-pending-after-definite-rejection",
 		"exact retry of acknowledged c%d [%d,%d] at node %d under its acknowledging authority %s was refused (%s) in a fault-free step: the sequencer holds the pending proposal %s, which was left behind by a Commit that returned a definite rejection (not by an ambiguous durability round)",
 		k, ack.receipt.First, ack.receipt.Last, n.id, authStr(cur), strings.TrimPrefix(obs, "commit:"), before[at])
+}
+
+// anonStoredAgain is the structural signature of the defect "a cold retry of the key-less
+// ServerAllocatedMessageIDs command was appended again": some replica log holds the
+// (one-record) anonymous command at more than one offset. Every symptom of that defect
+// (different range acknowledged, second copy found by the state invariant after a lost
+// acknowledgement, refusal by followers that hold something else there) is reported under
+// this one fingerprint.
+func (x *vw3) anonStoredAgain(logs []vwLog) error {
+	for i, l := range logs {
+		var at []uint64
+		for s, id := range l.ids {
+			if id.CommandID == cmdID(vw3AnonCmd) {
+				at = append(at, uint64(s+1))
+			}
+		}
+		if len(at) > 1 {
+			return mc.Violatef("C03:cold-retry-of-keyless-server-allocated-command-appended-again",
+				"node %d stores the anonymous command (one record without an idempotency key, proposed with ServerAllocatedMessageIDs) at offsets %v: a retry issued when the command was no longer in the sequencer's retained-command cache (owner restart, eviction, new authority) was re-sealed at the log end and appended AGAIN instead of being answered with the original range",
+				i+1, at)
+		}
+	}
+	return nil
+}
+
+func (x *vw3) Check() error {
+	if x.anon && !x.dead {
+		if err := x.anonStoredAgain(x.snapshot()); err != nil {
+			return err
+		}
+	}
+	return x.vw.Check()
 }
 
 // reclassify updates the legitimacy of every node's pending proposal after an event (at =
